@@ -86,6 +86,7 @@ func (e *Exec) enterLoop(li *loopInfo, phiVals map[ssa.Value]Val, st *State) {
 		if li.modset["next"] {
 			nn := Fresh("lnext$"+li.ord, SInt)
 			e.assume(Implies(e.guard(), Ge(nn, st.next)))
+			e.assumeClosedAlloc(li.modset, st.next, nn)
 			hst.next = nn
 		}
 	}
@@ -266,7 +267,25 @@ func (p *Program) FuncModset(fn *ssa.Function) map[string]bool {
 	outermost := len(modsetInProgress) == 1
 	ms := map[string]bool{}
 	if c := p.ContractOf(fn); c != nil && c.Flags["pure"] {
-		modsetCache[msKey{fn, opaqueStrings}] = ms
+		// writes nothing that existed; what it ALLOCATES (pseudo components alloc:<type>) is still collected from the body
+		all := map[string]bool{}
+		frDummy := map[string]bool{}
+		for _, b := range fn.Blocks {
+			for _, in := range b.Instrs {
+				p.instrModsetF(in, all, frDummy)
+			}
+		}
+		for n := range all {
+			if strings.HasPrefix(n, "alloc:") {
+				ms[n] = true
+			}
+		}
+		if all["*"] {
+			ms["alloc:*"] = true
+		}
+		if outermost || modsetRecursionHits == hits0 {
+			modsetCache[msKey{fn, opaqueStrings}] = ms
+		}
 		return ms
 	}
 	if len(fn.Blocks) == 0 {
